@@ -603,7 +603,8 @@ def r_fixpoint(A, ctx, scope, rule="R-FIXPOINT"):
 # ------------------------------------------------------------------ datafit accessor pairs
 def r_accessor_eq(A, ctx, scope, rule="R-ACCESSOR-EQ", select=None):
     ctx.rule(rule, "every datafit accessor that exists in a dense and a `_sparse` version returns equal "
-             "terms on the 3x3 design with structural zeros (arguments bound by parameter name; "
+             "terms on a 3x3 and on a 4x3 design with structural zeros (arguments bound by parameter "
+             "name and sized by their role, so that a row count taken from the wrong array shows; "
              "spectral norms of equal matrices are one opaque symbol, so dense `norm(X, ord=2)` and "
              "the CSC power iteration are compared through the matrix they are taken of)")
     prog = A.prog
@@ -611,72 +612,89 @@ def r_accessor_eq(A, ctx, scope, rule="R-ACCESSOR-EQ", select=None):
     y = Vec(sym(f"y{i}") for i in range(N))
     Y = Mat(Vec(sym(f"Y{i}{t}") for t in range(T)) for i in range(N))
     n = 0
-    for dcls in prog.datafits:
-        multitask = dcls.is_subclass_of(prog.BaseMultitaskDatafit)
-        names = sorted(m for m in dcls.all_methods() if m.endswith("_sparse"))
-        for ms in names:
-            md = ms[: -len("_sparse")]
-            fs, fd = dcls.find_method(ms), dcls.find_method(md)
-            if fd is None or fs is None or fs.cls.name.startswith("Base") or fd.cls.name.startswith("Base"):
-                continue
-            if md.startswith("initialize"):
-                continue
-            if select is not None and not select(md):
-                continue
-            if dcls.name == "Cox":
-                continue
-            key = f"{dcls.fq}::{md}"
-            try:
-                outs = []
-                for sparse, f in ((False, fd), (True, fs)):
-                    rg = Region(world())
-                    L = RegionLifter(prog, rg, max_steps=40000)
-                    dobj = make_obj(prog, dcls)
-                    im = dcls.find_method("initialize_sparse" if sparse else "initialize")
-                    yv = Y if multitask else y
-                    if im is not None and not im.cls.name.startswith("Base"):
-                        L.call_function(im, (list(csc) if sparse else [X]) + [yv], self_obj=dobj)
-                    args = []
-                    for p in f.call_params():
-                        pl = p.lower()
-                        if pl.endswith("_data"):
-                            args.append(csc[0])
-                        elif pl.endswith("_indptr"):
-                            args.append(csc[1])
-                        elif pl.endswith("_indices"):
-                            args.append(csc[2])
-                        elif p in ("X", "yXT"):
-                            args.append(X)
-                        elif p == "y":
-                            args.append(y)
-                        elif p == "Y":
-                            args.append(Y)
-                        elif p == "w":
-                            args.append(Vec(sym(f"w{j}") for j in range(P)))
-                        elif p == "W":
-                            args.append(Mat(Vec(sym(f"W{j}{t}") for t in range(T)) for j in range(P)))
-                        elif p in ("Xw", "yXTw"):
-                            args.append(Vec(sym(f"Xw{i}") for i in range(N)))
-                        elif p == "XW":
-                            args.append(Mat(Vec(sym(f"XW{i}{t}") for t in range(T)) for i in range(N)))
-                        elif p == "j":
-                            args.append(2)
-                        elif p == "g":
-                            args.append(1)
-                        else:
-                            raise Unsupported(f"parameter {p} of {f.name} not bound")
-                    outs.append((L.call_function(f, args, self_obj=dobj), rg))
-                (a, rg), (b, _) = outs
-                n += 1
-                d = _first_diff(rg, a, b)
-                ctx.ob(rule, key, d is None,
-                       what=f"{dcls.name}.{md} and {dcls.name}.{ms} differ on the 3x3 design with structural "
-                            f"zeros: {d} (dense vs CSC)", loc=loc(fs, fs.node))
-            except Raised as e:
-                n += 1
-                ctx.ob(rule, key, False, what=f"{dcls.name}.{md}/{ms} raises: {e}", loc=loc(fs, fs.node))
-            except (Unsupported, ZeroDivisionError) as e:
-                ctx.ob(rule, key, None, detail=f"not lifted: {e}")
+    PAT43 = [[1, 0, 1], [1, 1, 0], [0, 1, 1], [1, 0, 0]]
+    X43, csc43 = _design(PAT43)
+    for tag, Xd, cscd, R_, C_ in (("3x3", X, csc, N, P), ("4x3", X43, csc43, 4, 3)):
+        for dcls in prog.datafits:
+            multitask = dcls.is_subclass_of(prog.BaseMultitaskDatafit)
+            names = sorted(m for m in dcls.all_methods() if m.endswith("_sparse"))
+            for ms in names:
+                md = ms[: -len("_sparse")]
+                fs, fd = dcls.find_method(ms), dcls.find_method(md)
+                if fd is None or fs is None or fs.cls.name.startswith("Base") or fd.cls.name.startswith("Base"):
+                    continue
+                if md.startswith("initialize") or dcls.name == "Cox":
+                    continue
+                if select is not None and not select(md):
+                    continue
+                key = f"{dcls.fq}::{md}::{tag}"
+                yxt = any(p_.lower().startswith("yxt") for p_ in fd.call_params())
+                ny = C_ if yxt else R_              # yXT is features x samples
+                nw = C_
+                nxw = R_
+                try:
+                    outs = []
+                    for sparse, f in ((False, fd), (True, fs)):
+                        vals = world()
+                        for i in range(4):
+                            vals.setdefault(f"y{i}", 0.9 - 0.2 * i)
+                            vals.setdefault(f"Xw{i}", 0.31 - 0.27 * i)
+                            vals.setdefault(f"sw{i}", 0.5 + 0.3 * i)
+                            for t in range(T):
+                                vals.setdefault(f"Y{i}{t}", 0.4 * (t + 1) - 0.3 * i)
+                                vals.setdefault(f"XW{i}{t}", 0.3 * (t + 1) - 0.45 * i)
+                            for j in range(3):
+                                vals.setdefault(f"x{i}{j}", 0.35 + 0.1 * j - 0.05 * i)
+                        rg = Region(vals)
+                        L = RegionLifter(prog, rg, max_steps=40000)
+                        dobj = make_obj(prog, dcls)
+                        if "sample_weights" in dobj.attrs:
+                            dobj.attrs["sample_weights"] = Vec(sym(f"sw{i}") for i in range(ny))
+                        yv = Mat(Vec(sym(f"Y{i}{t}") for t in range(T)) for i in range(ny)) if multitask \
+                            else Vec(sym(f"y{i}") for i in range(ny))
+                        im = dcls.find_method("initialize_sparse" if sparse else "initialize")
+                        if im is not None and not im.cls.name.startswith("Base"):
+                            L.call_function(im, (list(cscd) if sparse else [Xd]) + [yv], self_obj=dobj)
+                        args = []
+                        for p in f.call_params():
+                            pl = p.lower()
+                            if pl.endswith("_data"):
+                                args.append(cscd[0])
+                            elif pl.endswith("_indptr"):
+                                args.append(cscd[1])
+                            elif pl.endswith("_indices"):
+                                args.append(cscd[2])
+                            elif p in ("X", "yXT"):
+                                args.append(Xd)
+                            elif p in ("y", "Y"):
+                                args.append(yv)
+                            elif p == "w":
+                                args.append(Vec(sym(f"w{j}") for j in range(nw)))
+                            elif p == "W":
+                                args.append(Mat(Vec(sym(f"W{j}{t}") for t in range(T)) for j in range(nw)))
+                            elif p in ("Xw", "yXTw"):
+                                args.append(Vec(sym(f"Xw{i}") for i in range(nxw)))
+                            elif p == "XW":
+                                args.append(Mat(Vec(sym(f"XW{i}{t}") for t in range(T)) for i in range(nxw)))
+                            elif p == "j":
+                                args.append(2)
+                            elif p == "g":
+                                args.append(1)
+                            else:
+                                raise Unsupported(f"parameter {p} of {f.name} not bound")
+                        outs.append((L.call_function(f, args, self_obj=dobj), rg))
+                    (a, rg), (b, _) = outs
+                    n += 1
+                    d = _first_diff(rg, a, b)
+                    ctx.ob(rule, key, d is None,
+                           what=f"{dcls.name}.{md} and {dcls.name}.{ms} differ on the {tag} design with structural "
+                                f"zeros: {d} (dense vs CSC)", loc=loc(fs, fs.node))
+                except Raised as e:
+                    n += 1
+                    ctx.ob(rule, key, False, what=f"{dcls.name}.{md}/{ms} on the {tag} design: {e}",
+                           loc=loc(fs, fs.node))
+                except (Unsupported, ZeroDivisionError) as e:
+                    ctx.ob(rule, key, None, detail=f"not lifted: {e}")
     # full_grad_sparse stacks the coordinate gradients
     for dcls in prog.datafits:
         ff = dcls.find_method("full_grad_sparse")
